@@ -508,6 +508,13 @@ impl Client {
                         nonce_ack: frame.nonce,
                     });
                     let _ = self.socket.send(&reply.write());
+
+                    // The server establishes the connection when it receives this ACK, and it has
+                    // ignored every disconnection request so far. Repeat the request right behind
+                    // the ACK (the resend schedule is left as it is): if this was one of the last
+                    // repetitions of the SYN+ACK, no scheduled request may follow, and the server
+                    // would be left with a connection which only its active timeout ends.
+                    let _ = self.socket.send(&state.request_bytes);
                 }
             }
             _ => (),
